@@ -228,6 +228,8 @@ def run(repo: Repo, rep: Report, tier: str) -> None:
     from ..core.report import Only
     from . import c14 as _c14
     _c14._ownership(repo, Only(rep, {"R14.8", "R14.9"}))
+    from ..core import siblings as _sib3
+    _sib3.check_guard_mirror(repo, rep, "R15.10")
 
 def _names(repo: Repo, rep: Report) -> None:
     """R04.4: injectivity of the internal method names over (direction, format, codec?, specialisation)."""
@@ -264,3 +266,6 @@ def _names(repo: Repo, rep: Report) -> None:
 _ADDENDUM = ' Borrowed: R14.8 / R14.9 (builder inputs such as the shared encoder_kwargs are never mutated in place; per-builder stores are not bound to longer-lived objects).'
 EXPLANATION += _ADDENDUM
 LEVEL_TEXT += _ADDENDUM
+_ADD11 = ' Borrowed: R15.10.'
+EXPLANATION += _ADD11
+LEVEL_TEXT += _ADD11
